@@ -51,7 +51,19 @@ type Cfg struct {
 	Exception bool          `json:"antispam_exception"`
 	MaintIvl  time.Duration `json:"antispam_interval"`
 	PipeIvl   time.Duration `json:"pipeline_maintenance_interval,omitempty"` // the pipeline's own maintenance interval (a different setting)
-	Readers   [][]Rec       `json:"readers"`
+	// RuleThr > 0: antispam *rules* instead of the plain threshold: one rule that every record of the harness matches
+	// (it contains a colon) with this threshold; the common threshold (0 = refuse whatever no rule takes, or another
+	// number) then never applies, and exceptions are not consulted
+	RuleThr int     `json:"antispam_rule_threshold,omitempty"`
+	Readers [][]Rec `json:"readers"`
+}
+
+// effThr is the threshold that governs every record of a run.
+func (c *Cfg) effThr() int {
+	if c.RuleThr > 0 {
+		return c.RuleThr
+	}
+	return c.Threshold
 }
 
 func (c *Cfg) SimCfg() *simrt.Config { return &c.Sim }
@@ -112,6 +124,10 @@ func (h *H) Gen(rng *rand.Rand, tier, prop string) core.Cfg {
 	}
 	c.Threshold = core.Pick(rng, -1, -1, 0, 1, 3, 5, 20)
 	c.Exception = c.Threshold >= 0 && core.Chance(rng, 0.5)
+	if core.Chance(rng, 0.15) {
+		c.Threshold, c.Exception = core.Pick(rng, 0, 0, 7), false
+		c.RuleThr = core.Pick(rng, 2, 3, 5)
+	}
 	c.MaintIvl = core.DurBetween(rng, 50*time.Millisecond, 2*time.Second)
 	c.PipeIvl = core.Pick(rng, 5*time.Second, time.Hour, 30*time.Millisecond)
 	if core.Chance(rng, 0.2) {
@@ -256,13 +272,21 @@ func (h *H) Run(cc core.Cfg, sim *simrt.Sim) *core.Outcome {
 			exc = antispam.Exceptions{{RuleSet: matchrule.RuleSet{Name: "vip", Cond: matchrule.CondAnd, Rules: []matchrule.Rule{{Values: []string{"EXEMPT"}, Mode: matchrule.ModeContains}}}}}
 			exc.Prepare()
 		}
+		var rules antispam.Rules
+		if cfg.RuleThr > 0 {
+			chk, err := doif.NewFromMap(map[string]any{"op": "contains", "field": "event", "values": []any{":"}})
+			if err != nil {
+				panic(err)
+			}
+			rules = antispam.Rules{{Name: "everything", Threshold: cfg.RuleThr, DoIfChecker: chk}}
+		}
 		pipeIvl := cfg.PipeIvl
 		if pipeIvl == 0 {
 			pipeIvl = 5 * time.Second
 		}
 		settings := &pipeline.Settings{
 			Capacity: 16, MaintenanceInterval: pipeIvl, EventTimeout: time.Second,
-			Antispam:     pipeline.AntispamSettings{Threshold: cfg.Threshold, MaintenanceInterval: cfg.MaintIvl, Exceptions: exc},
+			Antispam:     pipeline.AntispamSettings{Threshold: cfg.Threshold, MaintenanceInterval: cfg.MaintIvl, Exceptions: exc, Rules: rules},
 			AvgEventSize: 128, StreamField: "stream", Decoder: cfg.Decoder, Pool: pipeline.PoolTypeStd, MaxEventSize: cfg.MaxSize,
 			CutOffEventByLimit: cfg.CutOff, CutOffEventByLimitField: cfg.CutField,
 			Metric: &pipeline.MetricSettings{HoldDuration: time.Minute},
@@ -305,7 +329,7 @@ func (h *H) Run(cc core.Cfg, sim *simrt.Sim) *core.Outcome {
 			simrt.Sleep(100 * time.Millisecond)
 		}
 		simrt.Sleep(500 * time.Millisecond)
-		if cfg.Threshold > 1 { // with threshold 1 the probe itself reaches the threshold
+		if cfg.effThr() > 1 { // with threshold 1 the probe itself reaches the threshold
 			// every source has been silent for a while: "a banned source that falls silent is unbanned within the
 			// configured number of maintenance rounds plus one" - the rounds are the ANTISPAM interval's.
 			// Injected stalls of the whole process stop here: a stalled process does not run its maintenance rounds
@@ -324,7 +348,7 @@ func (h *H) Run(cc core.Cfg, sim *simrt.Sim) *core.Outcome {
 			for _, s := range ids {
 				probe := []byte(fmt.Sprintf(`{"id":%d}`, 900000+s))
 				if cfg.Decoder == "raw" {
-					probe = []byte("probe" + strconv.Itoa(s))
+					probe = []byte("probe:" + strconv.Itoa(s))
 				}
 				if cfg.MaxSize > 0 && len(probe) > cfg.MaxSize {
 					continue
@@ -383,7 +407,7 @@ func (h *H) Run(cc core.Cfg, sim *simrt.Sim) *core.Outcome {
 		accepted := ob.seqRet != 0
 		perSrc[r.Source]++
 		desc := func() string {
-			return fmt.Sprintf("record id %d source %d %q (len %d), decoder %s, max_event_size %d cut_off %v field %q, antispam threshold %d exception %v new_source %v", r.ID, r.Source, trunc(recBytes(r, cfg.Decoder)), len(recBytes(r, cfg.Decoder)), cfg.Decoder, cfg.MaxSize, cfg.CutOff, cfg.CutField, cfg.Threshold, cfg.Exception, r.New)
+			return fmt.Sprintf("record id %d source %d %q (len %d), decoder %s, max_event_size %d cut_off %v field %q, antispam threshold %d (rule threshold %d) exception %v new_source %v", r.ID, r.Source, trunc(recBytes(r, cfg.Decoder)), len(recBytes(r, cfg.Decoder)), cfg.Decoder, cfg.MaxSize, cfg.CutOff, cfg.CutField, cfg.Threshold, cfg.RuleThr, cfg.Exception, r.New)
 		}
 		if refuse {
 			if accepted {
@@ -395,14 +419,15 @@ func (h *H) Run(cc core.Cfg, sim *simrt.Sim) *core.Outcome {
 			// only the antispam may explain this refusal
 			// threshold 0 means "blocked": every record of a source without a matching exception is refused
 			exempt := cfg.Exception && strings.Contains(string(data), "EXEMPT") // the antispam sees the record after cutting
-			canSpam := cfg.Threshold >= 0 && !(r.New && cfg.Threshold > 0) && !exempt
-			if cfg.Threshold > 0 && perSrc[r.Source] < cfg.Threshold {
+			thr := cfg.effThr()
+			canSpam := thr >= 0 && !(r.New && thr > 0) && !exempt
+			if thr > 0 && perSrc[r.Source] < thr {
 				canSpam = false // fewer records than the threshold have arrived from this source at all
 			}
 			if !canSpam {
 				sig := "refused-without-reason"
 				switch {
-				case cfg.Threshold < 0:
+				case thr < 0:
 					sig += "/antispam-disabled"
 				case exempt:
 					sig += "/matching-exception"
